@@ -17,6 +17,7 @@ EXTENDS Integers, Sequences, FiniteSets, TLC, Json, IOUtils
 CONSTANT DIAG
 VARIABLES l, comms, par, q, ackSelf, ackKids, job, inSearch, search, bestCnt, nGo, nBest, nDone, mainJob, quitting, sess,
           pend,    \* result provenance: thread -> job id for which the result it is about to send was computed (event ResultFor)
+          hold, pendHold,   \* the running search is one whose answer is withheld (go infinite / go ponder) and nothing has released it yet
           optFin   \* options barrier: TRUE when every option handed over so far has been applied (mirrors optionsSetFinished)
 \* sess = [inDo, ready, outs]: E inside doSearch, isready awaiting readyok, bestmove lines printed (C05 session contract)
 Tr == ndJsonDeserialize(IOEnv.TRACE)
@@ -161,7 +162,7 @@ TReset == /\ Ev("Reset") /\ comms' = {} /\ par' = <<>> /\ q' = <<>> /\ ackSelf' 
 
 TInit == /\ l = 1 /\ comms = {} /\ par = <<>> /\ q = <<>> /\ ackSelf = <<>> /\ ackKids = <<>> /\ job = <<>> /\ inSearch = <<>>
          /\ search = FALSE /\ bestCnt = 0 /\ nGo = 0 /\ nBest = 0 /\ nDone = 0 /\ mainJob = 0 /\ quitting = FALSE
-         /\ sess = [inDo |-> FALSE, ready |-> 0, outs |-> 0] /\ pend = <<>> /\ optFin = TRUE
+         /\ sess = [inDo |-> FALSE, ready |-> 0, outs |-> 0] /\ pend = <<>> /\ optFin = TRUE /\ hold = FALSE /\ pendHold = FALSE
 TResultFor == /\ Ev("ResultFor") /\ Un(vars)
 TNext0 == TResultFor \/ TReg \/ TSend \/ TRecv \/ TStopSent \/ TStopAckCall \/ TWJob \/ TWSearch \/ TGo \/ TBest \/ TDone \/ TNewJob \/ TResultSeen
          \/ TQuit \/ TOther \/ TEnd \/ TReset \/ TUnreg \/ TCmd \/ TReadyOk \/ TInfo \/ TBestOut \/ TDoSearch \/ TParamSet
@@ -173,5 +174,11 @@ TNext == /\ TNext0
          /\ optFin' = IF Tr[l].e = "OptPending" THEN FALSE ELSE IF Tr[l].e = "OptsSwap" THEN Tr[l].a = 0
                        ELSE IF Tr[l].e = "Reset" THEN TRUE ELSE optFin
          /\ (Tr[l].e = "Go") => Chk("OptionsAppliedBeforeSearchStarts", optFin, <<"go number", nGo + 1>>)
+         \* What the COMMAND asked for decides whether the answer must be withheld - not the flags the engine derived from it: a 'go'
+         \* whose sub-commands contain 'infinite' or 'ponder' starts a search (Go) that may only answer (Best) after a release:
+         \* stopThread() (StopReq: 'stop', the next 'go', 'quit', end of input) or 'ponderhit' (PonderHit).
+         /\ pendHold' = IF Tr[l].e = "Cmd" /\ Tr[l].cmd0 = "go" THEN Tr[l].hold = 1 ELSE IF Tr[l].e = "Reset" THEN FALSE ELSE pendHold
+         /\ hold' = IF Tr[l].e = "Go" THEN pendHold ELSE IF Tr[l].e \in {"StopReq", "PonderHit", "Reset"} THEN FALSE ELSE hold
+         /\ (Tr[l].e = "Best") => Chk("AnswerHeldUntilReleased", ~hold, <<"go number", nGo>>)
 Accepted == TLCGet("stats").diameter - 1 = Len(Tr) \/ (PrintT(<<"REJECTED_AT", TLCGet("stats").diameter>>) /\ FALSE)
 =============================================================================
